@@ -701,11 +701,9 @@ def initPy (flags : String) (inputs : List Val) : PSt :=
 def finishPy (flags : String) (σ : PSt) : R PSt :=
   match σ.getVar ("stack", []) with
   | some (.list xs) => do
-      let origEmpty := xs.isEmpty
-      let (p, xs', ins) := popPy 1 xs σ.inputs false
-      let v := p.headD (.int 0)
-      let σ1 := { σ with inputs := ins }
-      let o ← flags.toList.foldlM (fun o c => applyFlag origEmpty xs'.reverse c o) (OutV.val v)
+      let σ1 : PSt := { σ with inputs := (popPy 1 xs σ.inputs false).2.2 }
+      let o ← flags.toList.foldlM (fun o c => applyFlag xs.isEmpty (popPy 1 xs σ.inputs false).2.1.reverse c o)
+        (OutV.val ((popPy 1 xs σ.inputs false).1.headD (.int 0)))
       if (!(σ1.printed || flags.contains 'O')) || flags.contains 'o' then
         match o with
         | .text s => .ok (σ1.print (s ++ "\n"))
